@@ -1228,7 +1228,19 @@ func (e *c10) episode(n int, ep int) {
 			if i < n/3 || rng.Intn(2) == 0 {
 				e.delegate(a, v, e.rndStake()) // slashes come late and not too often: a slashed pool takes no delegation
 			} else {
-				e.slash(v, sdk.MustNewDecFromStr(c10Slashes[rng.Intn(len(c10Slashes))]))
+				fr := sdk.MustNewDecFromStr(c10Slashes[rng.Intn(len(c10Slashes))])
+				if p, found := app.MultiStakingKeeper.GetStakingPoolByValidator(e.ctx, e.val(v)); found && rng.Intn(3) == 0 {
+					// a fraction whose product with the pool's ukex stake ends in exactly one half (both roundings of the
+					// slashed and of the remaining part go the same way there): stake odd -> 1/2, stake = 5 mod 10 -> 1/10
+					st := sdk.Coins(p.TotalStakingTokens).AmountOf("ukex")
+					if st.IsPositive() {
+						if st.ModRaw(2).IsZero() {
+							e.delegate(a, v, sdk.NewCoins(sdk.NewInt64Coin("ukex", 11))) // makes the stake odd (11 >= the stake minimum)
+						}
+						fr = sdk.MustNewDecFromStr("0.5")
+					}
+				}
+				e.slash(v, fr)
 			}
 		case k < 72:
 			// claim around the expiry: move the clock to expiry-1 / expiry / expiry+1 / elsewhere
